@@ -2,7 +2,13 @@
    row <cfg> <same> <x> <y>      -> <six results, operators < <= == != > >=; 1/0/U> <branch> <loop iterations>
    cmp <cfg> <op> <same> <x> <y> -> 1 | 0 | U          (U = undefined behaviour in the model)
    mem <cfg> <x>                 -> <lv_tag> <digits, little endian>     (3.12 layout)
-   cfg: 312 | 311 | noint | ilp32 ; op: 0..5 in the order above ; x, y decimal *)
+   cfg: 312 | 311 | noint | ilp32 ; op: 0..5 in the order above ; x, y decimal.
+   Operands: the sign/digit representation is cut out of the decimal text with zarith shifts (the
+   extracted of_Z divides 1200-bit numbers bit by bit: too slow for the thorough tier) and then
+   CERTIFIED by the extracted model itself: wfb (proved equivalent to wf) must hold and the
+   extracted [value] must give back x, otherwise the line is an error.  So every evaluated call is
+   cmp_exact on a pair that satisfies the hypotheses of C19_intint_identity_eq.  For operands of
+   at most 8 digits the representation is also compared with the extracted of_Z. *)
 
 let cfg_of = function
   | "312" -> lp64_312 | "311" -> lp64_311 | "noint" -> lp64_noint | "ilp32" -> ilp32_15
@@ -12,17 +18,36 @@ let ops = [| OpLt; OpLe; OpEq; OpNe; OpGt; OpGe |]
 
 let str_res = function Some true -> "1" | Some false -> "0" | None -> "U"
 
+let cache : (string * string, pylong) Hashtbl.t = Hashtbl.create 4096
+
+let repr_of (c : icfg) (cname : string) (s : string) : pylong =
+  match Hashtbl.find_opt cache (cname, s) with
+  | Some r -> r
+  | None ->
+    let sh = ZA.to_int (zt_of_z c.i_sh) in
+    let v = ZA.of_string s in
+    let mask = ZA.pred (ZA.shift_left ZA.one sh) in
+    let rec cut m = if ZA.sign m = 0 then [] else z_of_zt (ZA.logand m mask) :: cut (ZA.shift_right m sh) in
+    let r = { pl_neg = ZA.sign v < 0; pl_digits = cut (ZA.abs v) } in
+    let xz = z_of_zt v in
+    if not (wfb c.i_sh r) then failwith ("representation not well-formed: " ^ s);
+    if not (ZA.equal (zt_of_z (value c.i_sh r)) v) then failwith ("representation has another value: " ^ s);
+    if List.length r.pl_digits <= 8 && of_Z c.i_sh xz <> r then failwith ("of_Z differs: " ^ s);
+    Hashtbl.replace cache (cname, s) r; r
+
 let handle = function
-  | ["row"; c; same; x; y] ->
-    let c = cfg_of c and same = bool_of_string same and x = z_of_string x and y = z_of_string y in
-    let rs = Array.to_list (Array.map (fun op -> str_res (cmp_values c op same x y)) ops) in
-    let (br, it) = branch_values c x y in
+  | ["row"; cn; same; x; y] ->
+    let c = cfg_of cn and same = bool_of_string same in
+    let a = repr_of c cn x and b = repr_of c cn y in
+    let rs = Array.to_list (Array.map (fun op -> str_res (cmp_exact c zop op same a b)) ops) in
+    let br = branch_of c a b and it = loop_iters c.i_ssz a b (nat_of_int (List.length a.pl_digits)) Z0 in
     String.concat "" rs ^ " " ^ string_of_z br ^ " " ^ string_of_z it
-  | ["cmp"; c; op; same; x; y] ->
-    str_res (cmp_values (cfg_of c) ops.(int_of_string op) (bool_of_string same) (z_of_string x) (z_of_string y))
-  | ["mem"; c; x] ->
-    let c = cfg_of c in
-    let v = of_Z c.i_sh (z_of_string x) in
+  | ["cmp"; cn; op; same; x; y] ->
+    let c = cfg_of cn in
+    str_res (cmp_exact c zop ops.(int_of_string op) (bool_of_string same) (repr_of c cn x) (repr_of c cn y))
+  | ["mem"; cn; x] ->
+    let c = cfg_of cn in
+    let v = repr_of c cn x in
     string_of_z (tag v) ^ " " ^ string_of_zlist v.pl_digits
   | _ -> "!ERR badcmd"
 
